@@ -474,9 +474,9 @@ class StorageBase(metaclass=ABCMeta):
         except TypeError:
             t_start, t_end = None, t_range
         if t_start is None:
-            t_start = self.times[0]
+            t_start = -np.inf
         if t_end is None:
-            t_end = self.times[-1]
+            t_end = np.inf
 
         # determine the associated indices; note that the times are not necessarily
         # sorted, e.g., when several simulations have been appended
